@@ -45,7 +45,6 @@ type multiUpdateExecutor struct {
 	execContext *types.ExecContext
 }
 
-var rows driver.Rows
 var comma = ","
 
 // NewMultiUpdateExecutor get new multi update executor
@@ -115,15 +114,15 @@ func (u *multiUpdateExecutor) beforeImage(ctx context.Context) ([]*types.RecordI
 	}
 
 	rows, err := u.rowsPrepare(ctx, selectSQL, selectArgs)
+	if err != nil {
+		return nil, err
+	}
 	defer func() {
 		if err := rows.Close(); err != nil {
 			log.Errorf("rows close fail, err:%v", err)
 			return
 		}
 	}()
-	if err != nil {
-		return nil, err
-	}
 
 	image, err := u.buildRecordImages(rows, metaData, types.SQLTypeUpdate)
 	if err != nil {
@@ -146,6 +145,10 @@ func (u *multiUpdateExecutor) afterImage(ctx context.Context, beforeImages []*ty
 		return nil, errors.New("empty beforeImages")
 	}
 	beforeImage := beforeImages[0]
+	// no row matched: there is nothing to look up (and no key to look it up by)
+	if len(beforeImage.Rows) == 0 {
+		return []*types.RecordImage{{SQLType: u.parserCtx.SQLType}}, nil
+	}
 
 	tableName := u.parserCtx.MultiStmt[0].UpdateStmt.TableRefs.TableRefs.Left.(*ast.TableSource).Source.(*ast.TableName).Name.O
 	metaData, err := datasource.GetTableCache(types.DBTypeMySQL).GetTableMeta(ctx, u.execContext.DBName, tableName)
@@ -156,16 +159,16 @@ func (u *multiUpdateExecutor) afterImage(ctx context.Context, beforeImages []*ty
 	// use
 	selectSQL, selectArgs := u.buildAfterImageSQL(beforeImage, *metaData)
 
-	rows, err = u.rowsPrepare(ctx, selectSQL, selectArgs)
+	rows, err := u.rowsPrepare(ctx, selectSQL, selectArgs)
+	if err != nil {
+		return nil, err
+	}
 	defer func() {
 		if err := rows.Close(); err != nil {
 			log.Errorf("rows close fail, err:%v", err)
 			return
 		}
 	}()
-	if err != nil {
-		return nil, err
-	}
 
 	image, err := u.buildRecordImages(rows, metaData, types.SQLTypeUpdate)
 	if err != nil {
@@ -184,18 +187,15 @@ func (u *multiUpdateExecutor) rowsPrepare(ctx context.Context, selectSQL string,
 		queryer, ok = u.execContext.Conn.(driver.Queryer)
 	}
 	if ok {
-		var err error
-		rows, err = util.CtxDriverQuery(ctx, queryerContext, queryer, selectSQL, selectArgs)
-
+		rows, err := util.CtxDriverQuery(ctx, queryerContext, queryer, selectSQL, selectArgs)
 		if err != nil {
 			log.Errorf("ctx driver query: %+v", err)
 			return nil, err
 		}
-	} else {
-		log.Errorf("target conn should been driver.QueryerContext or driver.Queryer")
-		return nil, errors.New("invalid conn")
+		return rows, nil
 	}
-	return rows, nil
+	log.Errorf("target conn should been driver.QueryerContext or driver.Queryer")
+	return nil, errors.New("invalid conn")
 }
 
 // buildAfterImageSQL build the SQL to query after image data
